@@ -614,3 +614,27 @@ register(Unit(P, "S3/release", h_release_s3, functions=[f"{LP}:S3LockProviderBas
 
 from contracts import lemmas as _L  # noqa: E402
 register(Unit(P, "LEMMA/EXCL", _L.h_excl, functions=[], replay=_replay_s3lock, uses=_L.EXCL_USES))
+
+
+def h_lock_identity(h: H):
+    """ID-FRESH: every S3 lock provider instance gets an identity that no other instance (in this or any other process, on this
+    or any other host) shares - a fresh uuid4.  Ownership checks compare identities; two instances with one identity (host name,
+    pid, ...) would each take the other's lock for their own: is_held()'s fence and release() would accept a taken-over lock."""
+    c = h.ctx
+    misc.install_uuid(h.reg, c)
+    prov = SObj("S3LockProvider", {}, label="provider")
+    h.reg.modfuncs["threading.Event"] = lambda I, a, k: TheoryObj("event")
+    h.reg.modfuncs["threading.Lock"] = lambda I, a, k: TheoryObj("rlock")
+    out, val = h.run(f"{LP}:S3LockProviderBase.__init__", [prov, TheoryObj("s3client"), "bkt", "locks/metadata.lock"], {"timeout": 30.0, "lease_seconds": 60.0})
+    h.ensure("ID-FRESH:constructor-does-not-raise", out == "ok", detail=repr(val) if out != "ok" else "")
+    if out != "ok":
+        return
+    lid = prov.fields.get("lock_id")
+    hx = c.ghost.get("uuid", {}).get("hex", [])
+    h.ensure("ID-FRESH:lock-id-is-a-freshly-generated-uuid4(no-two-instances-share-an-identity)",
+             z3.Or(*[pyops.str_z(lid) == x for x in hx]) if (hx and lid is not None) else z3.BoolVal(False),
+             detail="A-uuid gives uniqueness only for values that come from uuid4()")
+    h.ensure("ID-FRESH:a-new-provider-holds-nothing", prov.fields.get("is_locked") is False and prov.fields.get("_etag") is None)
+
+
+register(Unit(P, "S3/identity", h_lock_identity, functions=[f"{LP}:S3LockProviderBase.__init__"], replay=_replay_s3lock))
